@@ -514,7 +514,12 @@ func (p *Process) forceKillOnTimeout(cmd command.Commander) error {
 		return nil
 	case errors.Is(err, context.DeadlineExceeded):
 		log.Debug().Msgf("process failed to shut down within %d seconds, sending %d", p.procConf.ShutDownParams.ShutDownTimeout, syscall.SIGKILL)
-		return cmd.Stop(int(syscall.SIGKILL), p.procConf.ShutDownParams.ParentOnly)
+		err = cmd.Stop(int(syscall.SIGKILL), p.procConf.ShutDownParams.ParentOnly)
+		if errors.Is(err, syscall.ESRCH) || errors.Is(err, os.ErrProcessDone) {
+			// it exited by itself at this very moment: the stop has done its job
+			err = nil
+		}
+		return err
 	default:
 		log.Error().Err(err).Msgf("terminating %s with timeout %d failed", p.getName(), p.procConf.ShutDownParams.ShutDownTimeout)
 		return err
